@@ -158,3 +158,57 @@ Proof.
   destruct (ancestors fuel t0) as [[a0|]|]; try discriminate.
   intros H. injection H as <- _ <- <-. apply check_static_sound.
 Qed.
+
+(* ------------------------------------------------------------------------------------------------------ *)
+(* the additional static facts of the strictness theorem (Sched/Strict.v), also decidable per scenario *)
+Record static_ok2 (st : static) : Prop := {
+  ok2_trig_in : forall i p dest d, In (dest,d) (trig st i p) ->
+     exists d', In (i,d') (indel st dest) /\ forall c, length c = depth st i -> tle (act c d') (act c d) = true;
+  ok2_init_kx : forall j k d, In (k,d) (indel st j) ->
+     tlt ((-1) :: repeat 0 (depth st j - 1)) (act (repeat 0 (depth st k)) d) = true;
+  ok2_init_nodup : forall i, NoDup (init_nexts st i) }.
+
+Definition indel_entries (t : tables) : list (nat * nat * interval) :=
+  flat_map (fun (jr : nat * list (nat * interval)) => map (fun (e : nat * interval) => (fst jr, fst e, snd e)) (snd jr)) (t_indel t).
+Definition check_static2 (sc : scenario) (t : tables) : bool :=
+  forallb (fun x : nat * nat * nat * interval => let '(i, p, dest, d) := x in
+     shape_okb sc i dest d && dominated (aget_l dest (t_indel t)) i d) (trig_entries t) &&
+  forallb (fun x : nat * nat * interval => let '(j, k, d) := x in
+     tlt ((-1) :: repeat 0 (sim_depth sc j - 1)) (act (repeat 0 (sim_depth sc k)) d)) (indel_entries t).
+
+Lemma initial_nexts_short sc i : (length (initial_nexts sc i) <= 1)%nat.
+Proof.
+  unfold initial_nexts.
+  assert (G : forall l acc, (length acc <= 1)%nat ->
+     (length (fold_left (fun acc (e : nat * Z) => if Nat.eqb (fst e) i then [snd e :: repeat 0%Z (sim_depth sc i - 1)] else acc) l acc) <= 1)%nat).
+  { induction l as [|e l IH]; intros acc H; simpl; [exact H|]. apply IH. destruct (Nat.eqb (fst e) i); [simpl; lia|exact H]. }
+  apply G. destruct (sc_type sc i); simpl; lia.
+Qed.
+Lemma short_nodup {A} (l : list A) : (length l <= 1)%nat -> NoDup l.
+Proof. destruct l as [|x [|y l]]; simpl; intros H; [constructor|constructor; [intros []|constructor]|lia]. Qed.
+
+Theorem check_static2_sound sc t atab : check_static2 sc t = true -> static_ok2 (static_of sc t atab).
+Proof.
+  intros CK. unfold check_static2 in CK. apply andb_true_iff in CK as [C1 C2]. rewrite forallb_forall in C1, C2.
+  constructor.
+  - intros i p dest d Hin. pose proof (trig_in sc t atab i p dest d Hin) as T. specialize (C1 _ T). simpl in C1.
+    apply andb_true_iff in C1 as [S D]. apply shape_ok_spec in S as (W & P & L).
+    apply dominated_spec in D as (d' & Hd' & SS & LE). exists d'. split; [unfold static_of; simpl; exact Hd'|].
+    intros c Hc. unfold static_of in Hc; simpl in Hc. destruct SS as (P' & C' & L').
+    assert (W' : wfI d') by (destruct W as (A1 & A2 & A3); unfold wfI; rewrite P', C', L'; auto).
+    apply act_mono_delay_le; [exact W'|repeat split; assumption|congruence|exact LE].
+  - intros j k d Hin. unfold static_of in *; simpl in *.
+    apply aget_l_in in Hin as (row & H1 & H2).
+    apply (C2 (j, k, d)). unfold indel_entries. apply in_flat_map. exists (j, row). split; [exact H1|].
+    apply in_map_iff. exists (k, d). split; [reflexivity|exact H2].
+  - intros i. unfold static_of; simpl. apply short_nodup. apply initial_nexts_short.
+Qed.
+
+From MV Require Import Sched.Wle Sched.Guards Sched.Strict.
+(* C02: strict increase of every simulator's steps, for runs from the initial state of a certified scenario *)
+Theorem certified_strictly_increasing st : static_ok st -> static_ok2 st ->
+  forall evs l p q j t m u m', run st (init_state st) evs = Ok l ->
+  (p < q)%nat -> nth_error evs p = Some (EvBegin j t m) -> nth_error evs q = Some (EvBegin j u m') -> tlt t u = true.
+Proof.
+  intros OK OK2. apply strictly_increasing_from_init; [exact OK|apply (ok2_trig_in st OK2)|apply (ok2_init_kx st OK2)|apply (ok2_init_nodup st OK2)].
+Qed.
